@@ -82,6 +82,9 @@ def general(draw, max_classes=4, max_nodes=7, max_props=4, max_stmts=30, bnodes=
     nodes = [["bnode", "_:b%d" % i] if is_b[i] else ["iri", node_iri(i, single_ns)] for i in range(n_nodes)]
     cls_b = bnode_classes and draw(st.booleans())
     classes = [["bnode", "_:c%d" % j] if (cls_b and j == n_classes - 1) else ["iri", class_iri(j)] for j in range(n_classes)]
+    if "same_local_classes" in quirks:
+        # two classes with one local name in different namespaces (foaf:Person / schema:Person)
+        classes = [["iri", NS[j % len(NS)] + "C%d" % (j // 2)] if c[0] == "iri" else c for j, c in enumerate(classes)]
     props = [prop_iri(i) for i in range(n_props)]
     if hash_props:
         props = props + ["http://ex.org/voc#h0", "http://ex.org/ns/voc#h1"]
